@@ -165,6 +165,11 @@ HEADERS = [
     ("HEADER;\nFILE_DESCRIPTION(('first line','second ''quoted'' line'),'2;1');\n"
      "FILE_NAME('a name','2001-02-03T04:05:06',('A. Author','B. Author','C'),('Org 1','Org 2'),'pre 1.0','sys','auth');\n"
      "FILE_SCHEMA(('{S}'));\nENDSEC;\n"),
+    # the section keywords and an instance look-alike inside header STRINGS and header comments
+    ("HEADER;\n/* DATA; ENDSEC; #1=X(1); */\nFILE_DESCRIPTION(('archive of measurement DATA; set 7','ENDSEC;','HEADER;',"
+     "'END-ISO-10303-21;','#1=X(1);','/* no comment'),'2;1');\n"
+     "FILE_NAME('DATA ;','2001-02-03T04:05:06',('ISO-10303-21;','it''s DATA;'),('*/ ENDSEC ;'),'DATA','#2=','data;');\n"
+     "/* HEADER; */ FILE_SCHEMA(('{S}')); /* DATA; */\nENDSEC;\n"),
     ("HEADER;\nFILE_DESCRIPTION ( ( 'x' ) , '2;1' ) ;\nFILE_NAME ( '' , '1999-12-31T23:59:59' , ( 'me' ) , ( '' , 'o' ) , '' , '' , '' ) ;\n"
      "FILE_SCHEMA ( ( '{S}' ) ) ;\nENDSEC;\n"),
 ]
@@ -181,9 +186,45 @@ def render_file(schema_name, insts, rng=None, comment_classes=(), between=None, 
     return "".join(out)
 
 
+def find_keyword(text, kw, start=0):
+    """index just behind the first `kw` [blanks] `;` that stands outside string literals and comments (-1: none)"""
+    i, n = start, len(text)
+    while i < n:
+        c = text[i]
+        if c == "'":
+            j = i + 1
+            while j < n:
+                if text[j] == "'":
+                    if text.startswith("''", j):
+                        j += 2
+                        continue
+                    break
+                if text.startswith(BS + "S" + BS, j):
+                    j += 4
+                    continue
+                j += 1
+            i = j + 1
+        elif text.startswith("/*", i):
+            j = text.find("*/", i + 2)
+            i = n if j < 0 else j + 2
+        elif text.startswith(kw, i):
+            m = re.compile(r"\s*;").match(text, i + len(kw))
+            if m:
+                return m.end()
+            i += 1
+        else:
+            i += 1
+    return -1
+
+
+def data_start(text):
+    return find_keyword(text, "DATA")
+
+
 def data_bytes(text):
-    """the bytes the model is given: everything after the first `DATA;`"""
-    return text[text.index("DATA;") + 5:]
+    """the bytes the model is given: everything after the `DATA;` that opens the data section (the keyword may also
+    occur inside header strings and comments)"""
+    return text[data_start(text):]
 
 
 # ------------------------------------------------------------------ literal spellings, driven by the token grammar
@@ -265,7 +306,8 @@ def _str_item(rng):
     if r == 10:     # extended4
         return (BS + "X4" + BS + "".join(rng.choice(["0001F600", "00000027"]) for _ in range(rng.randint(1, 2)))
                 + BS + "X0" + BS)
-    return rng.choice(["#12", "ENDSEC;", "/* x */", "$", "*", ",", ")", "(", ";", "=", ".T."])
+    return rng.choice(["#12", "ENDSEC;", "/* x */", "$", "*", ",", ")", "(", ";", "=", ".T.", "DATA;", "DATA ;", "HEADER;",
+                       "END-ISO-10303-21;", "#1=X(1);", "ISO-10303-21;", "/*", "*/"])
 
 
 def gen_string(rng):
@@ -315,7 +357,7 @@ def real_grid():
 
 def string_grid():
     """every item kind of the string grammar alone, at the start, at the end, and next to every other item kind"""
-    items = ["a", "''", BS + BS, BS + "S" + BS + "'", BS + "S" + BS + BS, BS + "S" + BS + "D", BS + "PA" + BS,
+    items = ["a", "DATA;", "ENDSEC;", "''", BS + BS, BS + "S" + BS + "'", BS + "S" + BS + BS, BS + "S" + BS + "D", BS + "PA" + BS,
              BS + "X" + BS + "27", BS + "X" + BS + "5C", BS + "X2" + BS + "0027" + BS + "X0" + BS,
              BS + "X4" + BS + "00000027" + BS + "X0" + BS, ";", ")", "/*"]
     out = ["''"]
@@ -445,6 +487,9 @@ ABSTRACT_EXPRESS = ("ENTITY abs_e\n  ABSTRACT SUPERTYPE OF (ONEOF (abs_s));\n  a
                     "ENTITY bk_d\n  SUBTYPE OF (bk_root);\n  bk_n : OPTIONAL INTEGER;\nEND_ENTITY;\n\n"
                     "ENTITY bk_p\n  SUBTYPE OF (bk_root);\n  bk_col : STRING;\nEND_ENTITY;\n\n"
                     "ENTITY rf_e;\n  rf_p : OPTIONAL bk_p;\n  rf_d : OPTIONAL bk_d;\n  rf_r : OPTIONAL bk_root;\n  rf_l : LIST [0:?] OF bk_p;\nEND_ENTITY;\n\n"
+                    "ENTITY ll_e;\n  ll_s : LIST [0:?] OF LIST [0:?] OF STRING;\n  ll_r : OPTIONAL LIST [0:?] OF LIST [0:?] OF REAL;\n"
+                    "  ll_t : LIST [0:?] OF LIST [0:?] OF {T0};\n  ll_m : OPTIONAL LIST [0:?] OF LIST [0:?] OF st_t;\n"
+                    "  ll_3 : OPTIONAL LIST [0:?] OF LIST [0:?] OF LIST [0:?] OF STRING;\nEND_ENTITY;\n\n"
                     "ENTITY dp_e;\n  dp_st : st_t;\n  dp_sl : LIST [0:?] OF st_t;\n  dp_so : OPTIONAL st_t;\n  dp_1 : s1;\n  dp_1b : s1b;\n"
                     "  dp_2 : OPTIONAL s2;\n  dp_3 : s3;\n  dp_4 : s4;\n  dp_l2 : LIST [0:?] OF s2;\n  dp_l3 : LIST [0:?] OF s3;\n"
                     "  dp_l4 : LIST [0:?] OF s4;\nEND_ENTITY;\n\n"
@@ -469,7 +514,8 @@ SEL_LEAVES["S4"] = SEL_LEAVES["S3"] + ["NM_LOG"]
 DEEP_KINDS = {"XENUM": "one:enum:" + ".".join(ST_ITEMS), "AGG_XENUM": "aggr:enum:" + ".".join(ST_ITEMS),
               "SEL_S1": "one:sel:S1", "SEL_S1B": "one:sel:S1B", "SEL_S2": "one:sel:S2", "SEL_S3": "one:sel:S3", "SEL_S4": "one:sel:S4",
               "AGG_S2": "aggr:sel:S2", "AGG_S3": "aggr:sel:S3", "AGG_S4": "aggr:sel:S4",
-              "SEL_S2R": "one:sel:S2R", "SEL_S3R": "one:sel:S3R", "AGG_S3R": "aggr:sel:S3R"}
+              "SEL_S2R": "one:sel:S2R", "SEL_S3R": "one:sel:S3R", "AGG_S3R": "aggr:sel:S3R",
+              "AGG2_STR": "aggr:gen", "AGG2_REAL": "aggr:gen", "AGG2_ENT": "aggr:gen", "AGG2_XENUM": "aggr:gen", "AGG3_STR": "aggr:gen"}
 
 
 class SchemaX(G.Schema):
@@ -491,6 +537,9 @@ class SchemaX(G.Schema):
                                       G.Entity("rf_e", None, [G.Attr("rf_p", "ENTITY", True, "bk_p"), G.Attr("rf_d", "ENTITY", True, "bk_d"),
                                                               G.Attr("rf_r", "ENTITY", True, "bk_root"),
                                                               G.Attr("rf_l", "AGG_ENT", False, "bk_p")]),
+                                      G.Entity("ll_e", None, [G.Attr("ll_s", "AGG2_STR", False), G.Attr("ll_r", "AGG2_REAL", True),
+                                                              G.Attr("ll_t", "AGG2_ENT", False, base.targets[0]),
+                                                              G.Attr("ll_m", "AGG2_XENUM", True), G.Attr("ll_3", "AGG3_STR", True)]),
                                       G.Entity("dp_e", None, [G.Attr("dp_st", "XENUM", False), G.Attr("dp_sl", "AGG_XENUM", False),
                                                               G.Attr("dp_so", "XENUM", True), G.Attr("dp_1", "SEL_S1", False),
                                                               G.Attr("dp_1b", "SEL_S1B", False), G.Attr("dp_2", "SEL_S2", True),
@@ -507,7 +556,7 @@ class SchemaX(G.Schema):
         t = G.Schema.express(self)
         a = t.index("ENTITY abs_e")
         b = t.index("END_SCHEMA;")
-        t = t[:a] + ABSTRACT_EXPRESS + t[b:]
+        t = t[:a] + ABSTRACT_EXPRESS.replace("{T0}", self.targets[0]) + t[b:]
         e0 = t.index("ENTITY ")
         return t[:e0] + DEEP_TYPES.replace("{T0}", self.targets[0]) + t[e0:]
 
@@ -527,6 +576,20 @@ def _gen_value(rng, attr, schema, pool):
         return ("aggr", [("tok", rng.choice([".T.", ".F."])) for _ in range(rng.randint(0, 3))])
     if k == "AGG_LOG":
         return ("aggr", [("tok", rng.choice([".T.", ".F.", ".U."])) for _ in range(rng.randint(0, 3))])
+    if k in ("AGG2_STR", "AGG2_REAL", "AGG2_ENT", "AGG2_XENUM", "AGG3_STR"):
+        def leaf():
+            if k in ("AGG2_STR", "AGG3_STR"):
+                return ("tok", rng.choice([gen_string(rng), "'part number'", "'unit of  measure'", "' a b '", "'tab\there'"]))
+            if k == "AGG2_REAL":
+                return ("tok", gen_real(rng))
+            if k == "AGG2_XENUM":
+                return ("tok", "." + rng.choice(ST_ITEMS) + ".")
+            c = sorted({i for n, ids in pool.items() if schema.is_a(n, attr.target) for i in ids})
+            return ("ref", rng.choice(c)) if c else None
+        row = lambda: ("aggr", [v for v in (leaf() for _ in range(rng.randint(0, 3))) if v])
+        if k == "AGG3_STR":
+            return ("aggr", [("aggr", [row() for _ in range(rng.randint(0, 2))]) for _ in range(rng.randint(0, 2))])
+        return ("aggr", [row() for _ in range(rng.randint(0, 3))])
     if k == "XENUM":
         return ("tok", "." + rng.choice(ST_ITEMS) + ".")
     if k == "AGG_XENUM":
